@@ -87,6 +87,28 @@ def signal_args(fr, name):
 _EPS = [0.0]
 
 
+_RFORM = [None]
+
+
+def range_arg(rng_):
+    """The bounding range in the form the caller holds it (sub-box): floats in Hz, astropy Quantities in MHz, a float and a
+    Quantity in kHz, a list, a numpy array."""
+    form = _RFORM[0]
+    if rng_ is None or form is None:
+        return rng_
+    from astropy import units as u
+    lo, hi = rng_
+    if form == 'mhz':
+        return (lo / 1e6 * u.MHz, hi / 1e6 * u.MHz)
+    if form == 'mixed':
+        return (lo, hi / 1e3 * u.kHz)
+    if form == 'list':
+        return [lo, hi]
+    if form == 'array':
+        return np.array([lo, hi])
+    raise ValueError(form)
+
+
 def range_of(fr, name):
     f0 = fr.get_frequency
     # every case shifts all bounds by its own tiny offset (<< df): the numeric range values are then unique to the
@@ -156,7 +178,7 @@ def inject(fr, step, V, wd, check=True, ctrl_noise=None):
                                                stg.gaussian_f_profile(3.0))
             sig = np.zeros(fr.shape)
         else:
-            sig = fr.add_signal(bounding_f_range=rng_, **args)
+            sig = fr.add_signal(bounding_f_range=range_arg(rng_), **args)
     except Exception as e:
         if sname in BAD:
             if check:
@@ -234,6 +256,7 @@ def case_sequences(c):
     # separately computed signals on a zero twin (for the superposition check)
     solo = {}
     _EPS[0] = (int(engine.sha([c['prior'], c['asc'], c['first'], c['depth']]), 16) % 100000) * 1e-9
+    _RFORM[0] = c.get('rform')
     with contextlib.redirect_stdout(io.StringIO()):
         # Deterministic process history: OTHER frames (different channel count, resolution, band edge, orientation) are
         # injected with numerically the same bounding ranges first, so that anything memoised at class/module level on
@@ -322,6 +345,9 @@ def run(ctx):
         for asc in (True, False):
             for first in range(nsteps):
                 cases.append(dict(prior=prior, asc=asc, depth=depth, first=first, seed=ctx.seed))
+    # (sub-box) the bounding range handed over as Quantities in MHz / a float and a kHz Quantity / a list / an array
+    cases += [dict(cc, rform=rf) for cc in cases if cc['prior'] == 'noise' and cc['asc'] and cc['first'] < len(SIGNALS) * len(RANGES)
+              and cc['first'] % len(RANGES) in (1, 2) for rf in ('mhz', 'mixed', 'list', 'array')]
     ctx.pmap(case_sequences, cases, chunk=1)
     return ctx.finish(
         rule='all injection sequences of length %d over %d steps (%d signal forms x %d bounding ranges + rejected calls) x 4 prior '
